@@ -9,6 +9,17 @@ ROOT = pathlib.Path(__file__).resolve().parent.parent
 
 # id -> (technique, level text, level_note, design_ref)
 CHECKS = {
+    "C05": (
+        "codec differential: encode -> decode(JSON text and dict routes) -> encode fixed point, derived-fact and attribute-tree equality against opaque-mode rebuilds, encoding vs independently written wire forms, sugar == general; foreign-writer documents for the load/re-save clause",
+        "Generated types/params/args (nested sums, function types, opaque and generated extension types, row variables), values (all sugar "
+        "helpers, std constants, function values), all serialized op kinds with arbitrary attributes (type params, extension deltas, "
+        "descriptions, type args) are encoded, decoded through both decoder routes and re-encoded; documents re-emitted by a harness-side "
+        "writer that follows hugr-core's conventions (null offsets for order edges, metadata holes, respelled sums/tuples, omitted defaults) "
+        "plus the repo's own live-version sample documents are schema-validated, loaded and re-saved and compared under a canonicaliser.",
+        "Trusted: vf/gen/types.py wire forms, the canonicaliser in c05_foreign.py, the published schema. CF edges are always written with explicit "
+        "offsets (a null CF offset is ambiguous in the reference reader).",
+        "DESIGN.md §3 C05",
+    ),
     "C03": (
         "conformance monitor: jsonschema against the published strict schema + index-sanity + port-address oracle computed from Hugr.links() and the wire attributes of the emitted ops",
         "Every emitted HUGR document (programs, programs+histories with holes, order-link-heavy cases, planted attribute-rich ops), package "
